@@ -4,7 +4,7 @@ from lib.coqterm import cbytes, cbool, cN, clist, copt, cpair, hx, unhx
 
 ID = "C52"
 QUICK_N = 1000
-THOROUGH_N = 45000
+THOROUGH_N = 5000
 SHARD = 100
 COQ_PRELUDE = "From MV Require Import Model.ServerPlayback.\n"
 RULE = ("85% histories: a random option set, a load of 1-8 recordings (about 15% without response, 5% non-http "
@@ -52,6 +52,48 @@ def _multipart(fields):
     return out + b"--BB--\r\n"
 
 
+UE_GARBAGE = [b"%zz&&==&a", b"\xff=\xfe&a=1", b"a", b"=", b"&", b"a=1;b=2", b"a=%", b"\x00=\x00", None]
+
+
+def _malformed_multipart(rng, fields, headers):
+    """truncated / aborted uploads and broken framing for the multipart key component"""
+    part = lambda k, v: b'--BB\r\nContent-Disposition: form-data; name="' + k.encode() + b'"\r\n\r\n' + v.encode() + b"\r\n"
+    k, v = fields[0] if fields else ("a", "1")
+    good = b"".join(part(a, b) for a, b in fields[1:])
+    hdr = b'--BB\r\nContent-Disposition: form-data; name="' + k.encode() + b'"'
+    kind = rng.choice(["noblank", "hdr-only", "hdr-crlf", "hdr-ctype-noblank", "mid-value", "no-name", "extra-header",
+                       "no-boundary-param", "nonascii-boundary", "other-boundary", "empty", "none", "lf-only", "prefix-cut"])
+    if kind == "noblank":              # name line directly followed by the value: no empty line
+        c = good + hdr + b"\r\n" + v.encode() + b"\r\n--BB--\r\n"
+    elif kind == "hdr-only":           # upload aborted right after the name header
+        c = good + hdr
+    elif kind == "hdr-crlf":
+        c = good + hdr + b"\r\n"
+    elif kind == "hdr-ctype-noblank":  # second part header, then cut
+        c = good + hdr + b"\r\nContent-Type: text/plain\r\n"
+    elif kind == "mid-value":
+        c = good + hdr + b"\r\n\r\n" + v.encode()[:1]
+    elif kind == "no-name":
+        c = good + b"--BB\r\nContent-Disposition: form-data\r\n\r\n" + v.encode() + b"\r\n--BB--\r\n"
+    elif kind == "extra-header":       # valid: a Content-Type line before the empty line
+        c = good + hdr + b"\r\nContent-Type: text/plain\r\n\r\n" + v.encode() + b"\r\n--BB--\r\n"
+    elif kind == "lf-only":
+        c = (good + hdr + b"\r\n\r\n" + v.encode() + b"\r\n--BB--\r\n").replace(b"\r\n", b"\n")
+    elif kind == "prefix-cut":
+        full = _multipart(fields or [(k, v)])
+        c = full[: rng.randint(0, len(full))]
+    elif kind == "empty":
+        c = b""
+    elif kind == "none":
+        c = None
+    else:
+        c = _multipart(fields or [(k, v)])
+        ct = {"no-boundary-param": "multipart/form-data", "nonascii-boundary": "multipart/form-data; boundary=\u00e9",
+              "other-boundary": "multipart/form-data; boundary=CC"}[kind]
+        headers = [h for h in headers if h[0].lower() != "content-type"] + [["Content-Type", ct]]
+    return c, headers
+
+
 def gen_req(rng):
     q = [(rng.choice(PARAMS), rng.choice(VALUES)) for _ in range(rng.weighted([(4, 0), (3, 1), (2, 2), (1, 3)]))]
     path = rng.choice(PATHS)
@@ -67,12 +109,17 @@ def gen_req(rng):
         if rng.chance(0.5):
             fields = [(rng.choice(PARAMS), rng.choice(VALUES)) for _ in range(rng.randint(0, 3))]
             content = "&".join(k + "=" + v.replace(" ", "+") for k, v in fields).encode()
+        if rng.chance(0.2):
+            content = rng.choice(UE_GARBAGE)
     elif kind == "multipart":
         headers.append(["content-type", "multipart/form-data; boundary=BB"])
         fields = [(rng.choice(PARAMS), rng.choice(VALUES)) for _ in range(rng.randint(0, 3))]
         content = _multipart(fields)
-        if rng.chance(0.1):
-            content = content[: len(content) // 2]
+        if rng.chance(0.45):
+            content, headers = _malformed_multipart(rng, fields, headers)
+    if rng.chance(0.06):
+        # undecodable content-encoding (with multipart + ignore_payload_params: known finding hash-raises-encoding)
+        headers.append(["Content-Encoding", rng.choice(["gzip", "deflate", "br", "nope"])])
     headers = [h for h in headers if h[0] != "Host" or h[1] not in ("", "a, b")]
     return {"method": rng.choice(METHODS), "scheme": rng.choice(SCHEMES), "host": rng.choice(HOSTS),
             "port": rng.choice(PORTS), "path": path, "headers": headers,
@@ -163,7 +210,15 @@ def gen_hist(rng):
             ops.append({"op": "load", "flows": gen_flows(rng, nextid, rng.randint(0, 4), pool)})
         else:
             ops.append({"op": "clear"})
-    return {"k": "hist", "opts": gen_opts(rng, 0.3), "ops": ops}
+    opts = gen_opts(rng, 0.3)
+    if rng.chance(0.35):
+        pp = {"server_replay_ignore_payload_params": rng.sample(PARAMS + ["zz"], rng.randint(1, 2))}
+        if rng.chance(0.5):
+            opts.update(pp)
+            opts["server_replay_ignore_content"] = False
+        else:   # turned on at runtime: a re-index that has to hash every pending recording's body
+            ops.insert(rng.randint(1, len(ops)), {"op": "conf", "upd": {**pp, "server_replay_ignore_content": False}})
+    return {"k": "hist", "opts": opts, "ops": ops}
 
 
 def gen(rng, n, tier):
@@ -181,6 +236,9 @@ def gen(rng, n, tier):
 
 
 # ------------------------------------------------------------------ implementation runner
+
+_hook_errors = []
+
 
 class _IdentitySha:
     """stands in for hashlib while reading the key list back: digest() is the hashed text itself"""
@@ -207,6 +265,16 @@ def setup_impl():
     logging.getLogger().addHandler(logging.NullHandler())
     logging.disable(logging.CRITICAL)
     _sp = serverplayback.ServerPlayback()
+    # the addon manager logs and swallows exceptions of the configure hook: make a failing re-index observable
+    orig = _sp.recompute_hashes
+
+    def recompute_hashes():
+        try:
+            orig()
+        except Exception as e:
+            _hook_errors.append(type(e).__name__)
+            raise
+    _sp.recompute_hashes = recompute_hashes
     _tctx = taddons.context(_sp)
 
 
@@ -237,12 +305,28 @@ def extract(r):
     """the values _hash reads from a request, through the same library accessors"""
     _, _, path, _, query, _ = urllib.parse.urlparse(r.url)
     qs = urllib.parse.parse_qsl(query, keep_blank_values=True)
+    raised = {}
+    try:
+        mp = list(r.multipart_form.items(multi=True))
+    except Exception as e:   # documented: malformed multipart = no form fields
+        mp, raised["mp"] = [], type(e).__name__
+    try:
+        ue = list(r.urlencoded_form.items(multi=True))
+    except Exception as e:
+        ue, raised["ue"] = [], type(e).__name__
+    undecodable = False
+    try:
+        r.content
+    except ValueError:
+        undecodable = True
     return {
+        "raised": raised,
+        "bad_mp_encoding": undecodable and "multipart/form-data" in r.headers.get("content-type", "").lower(),
         "scheme": _s(str(r.scheme)), "method": _s(str(r.method)), "path": _s(str(path)),
         "query": [[_s(k), _s(v)] for k, v in qs],
         "host": _s(r.pretty_host), "port": r.port, "content": _s(str(r.raw_content)),
-        "mp": [[_s(k.decode(errors="replace")), hx(k), hx(v)] for k, v in r.multipart_form.items(multi=True)],
-        "ue": [[_s(k), _s(v)] for k, v in r.urlencoded_form.items(multi=True)],
+        "mp": [[_s(k.decode(errors="replace")), hx(k), hx(v)] for k, v in mp],
+        "ue": [[_s(k), _s(v)] for k, v in ue],
         "headers": [[hx(k), hx(v)] for k, v in r.headers.fields],
     }
 
@@ -265,6 +349,8 @@ def run_impl(case):
         serverplayback.hashlib = _IdentitySha
         try:
             text = _sp._hash(f)
+        except Exception as e:
+            return {"fields": extract(f.request), "key": None, "raised": type(e).__name__}
         finally:
             serverplayback.hashlib = saved
         keylist = ast.literal_eval(text.decode("utf8", "surrogateescape"))
@@ -283,7 +369,10 @@ def run_impl(case):
                 _sp.clear()
             elif op["op"] == "conf":
                 fields.append(None)
+                del _hook_errors[:]
                 _tctx.options.update(**op["upd"])
+                if _hook_errors:
+                    out = ["exception", _hook_errors[0]]
             else:
                 f = tflow.tflow(req=make_request(op["req"]))
                 fields.append(extract(f.request))
@@ -387,7 +476,26 @@ def c_out(out):
     return {"killed": "(Some OKilled)", "forward": "(Some OForward)", "raised": "(Some ORaised)"}.get(tag)
 
 
+def _known_encoding_raise(case, obs):
+    """Known finding hash-raises-encoding: index of the first step at which _hash raised ValueError while a request
+    with a multipart content type and an undecodable Content-Encoding was in play (Request.multipart_form evaluates
+    self.content outside its try block). The model does not cover what happens from there on. None otherwise."""
+    if case["k"] == "hash":
+        return 0 if obs.get("raised") == "ValueError" and obs["fields"]["bad_mp_encoding"] else None
+    seen = False
+    for i, (fl, st) in enumerate(zip(obs["fields"], obs["steps"])):
+        for x in (fl if isinstance(fl, list) else [fl]):
+            seen = seen or bool(x and x["bad_mp_encoding"])
+        if st["out"] == ["exception", "ValueError"] and seen:
+            return i
+    return None
+
+
 def coq_case(case, obs):
+    if _known_encoding_raise(case, obs) is not None:
+        return None
+    if case["k"] == "hash" and obs["key"] is None:
+        return f"HashC {c_options(case['opts'])} {c_request(obs['fields'])} [KInt 4294967295%N; KInt 4294967295%N]"
     if case["k"] == "hash":
         ks = []
         for e in obs["key"]:
@@ -456,8 +564,16 @@ def ref_key(o, fl):
             None if o["server_replay_ignore_port"] else fl["port"], body, tuple(hdrs))
 
 
+def _acc_raised(fl):
+    return [x["raised"] for x in (fl if isinstance(fl, list) else [fl]) if x and x["raised"]]
+
+
 def oracle(case, obs):
+    known_at = _known_encoding_raise(case, obs)
     if case["k"] != "hist":
+        if obs.get("raised"):
+            return [{"key": "hash-raises-encoding" if known_at is not None else "exception",
+                     "what": f"_hash raised {obs['raised']} (accessors: {obs['fields']['raised']})"}]
         return []
     v = []
     bad = lambda key, what: v.append({"key": key, "what": what})
@@ -470,8 +586,11 @@ def oracle(case, obs):
         flat_prev = [x for b in prev for x in b]
         flat_cur = [x for b in cur for x in b]
         out = st["out"]
+        if known_at == i:
+            bad("hash-raises-encoding", f"step {i}: _hash raised ValueError for a multipart request with undecodable Content-Encoding")
+            return v
         if out and out[0] in ("exception", "other-error", "other-is-replay", "raised"):
-            bad("exception", f"step {i}: {out}")
+            bad("exception", f"step {i}: {out} ({op['op']}; accessor exceptions {_acc_raised(fl)})")
         if st["count"] != len(flat_cur):
             bad("count", f"step {i}: count() = {st['count']} but flowmap holds {len(flat_cur)}")
         if op["op"] in ("load", "add"):
@@ -563,18 +682,36 @@ def oracle(case, obs):
 
 def nontrivial(case, obs):
     if case["k"] == "hash":
-        return len(obs["key"]) > 3
+        return obs["key"] is not None and len(obs["key"]) > 3
     return any(st["out"] and st["out"][0] == "served" for st in obs["steps"])
+
+
+def _malformed_mp(x):
+    ct = b" ".join(unhx(v) for k, v in x["headers"] if unhx(k).lower() == b"content-type").lower()
+    return b"multipart/form-data" in ct and not x["mp"] and x["content"] not in (_s("None"), _s("b''"))
 
 
 def classify(case, obs):
     if case["k"] == "hash":
         tags = ["hash"]
+        if obs["key"] is None:
+            return tags + ["hash-raised"]
+        if _malformed_mp(obs["fields"]):
+            tags.append("hash-malformed-multipart")
         kinds = {e[0] for e in obs["key"]}
         tags += ["hash-" + {"b": "multipart", "p": "urlencoded", "h": "headers", "i": "port"}[t] for t in kinds if t in "bphi"]
         return tags
     tags = ["hist"]
     seen = set()
+    allf = [x for fl in obs["fields"] for x in (fl if isinstance(fl, list) else [fl]) if x]
+    ipp = bool(case["opts"].get("server_replay_ignore_payload_params")) or any(
+        op["op"] == "conf" and op["upd"].get("server_replay_ignore_payload_params") for op in case["ops"])
+    if any(_malformed_mp(x) for x in allf):
+        seen.add("malformed-multipart" + ("-with-payload-params" if ipp else ""))
+    if any(x["bad_mp_encoding"] for x in allf):
+        seen.add("multipart-undecodable-encoding")
+    if _known_encoding_raise(case, obs) is not None:
+        seen.add("known-hash-raises-encoding")
     o = {**DEFAULTS, **case["opts"]}
     prev = []
     for op, st in zip(case["ops"], obs["steps"]):
